@@ -3425,8 +3425,11 @@ class DenseIntOrFPElementsAttr(
         Return whether or not this dense attribute is defined entirely
         by a single value (splat).
         """
-        values = self.get_values()
-        return values.count(values[0]) == len(values)
+        # Compare the stored bytes: value equality identifies 0.0 with -0.0 and
+        # never a NaN with another NaN.
+        data = self.data.data
+        size = self.type.element_type.compile_time_size
+        return len(data) >= size and data == data[:size] * (len(data) // size)
 
     @staticmethod
     def parse_with_type(parser: AttrParser, type: Attribute) -> TypedAttribute:
